@@ -120,6 +120,17 @@ func c10Programs(depth int) []*gen.Program {
 				mk(gen.SubDef{Name: "s", Body: []gen.Node{x, nl}}, gen.Loop{Min: 0, Max: -1, Form: "atleast", Body: gen.SubCall{Name: "s"}})
 				progs = append(progs, &gen.Program{Globals: []gen.Global{{Name: "g", Body: []gen.Node{x, nl}}},
 					Commands: []gen.Command{{Amount: gen.Amount{Kind: "all"}, Body: []gen.Node{gen.GlobalRef{Name: "g"}, gen.Loop{Min: 0, Max: 1, Form: "maybe", Body: gen.GlobalRef{Name: "g"}}}}}})
+				// a named loop is counted, not unrolled: a huge minimum over a body that can match nothing must not
+				// mean that many empty iterations
+				if f.Min == 0 && f.Max == -1 && !f.Lazy {
+					for _, big := range []gen.Loop{{Min: 100000, Max: -1, Form: "atleast"}, {Min: 50000, Max: 200000, Form: "between"}, {Min: 100000, Max: -1, Form: "atleast", Lazy: true}} {
+						bl := big
+						bl.Body = b
+						bl.Name = "n"
+						mk(x, bl)
+						mk(gen.SubDef{Name: "s", Body: []gen.Node{x, bl}})
+					}
+				}
 				// a named loop around an unnamed nullable loop, inside a subroutine
 				inner := gen.Loop{Min: 0, Max: -1, Form: "atleast", Body: b}
 				nl2 := f
@@ -166,7 +177,7 @@ func C10(r *drv.Run) {
 	progs := c10Programs(depth)
 	texts := allTexts("ab\n", tlen)
 	r.Exhaustive = true
-	r.Rule = fmt.Sprintf("bounded-progress form of termination: every Run must return within %d VM steps (hook H1), a budget fixed at >= 100x the largest step count the enumerated scope needs on the unchanged tree. Scope enumerated completely: all programs of loop-nesting depth <= %d over nullable building blocks (literal, not-literal, any, line/word/file anchors and their negations, the empty group, not-in, whole word/line; loop forms maybe, at least 0, at most 2, between 0 and 2, at least 1, greedy and fewest; every level-1 program also under skip / skip-take / top / take / last clauses, as find and as replace; loops over loops, over (block loop) and over (loop or block); nullable bodies in subroutines called from loops; named loops with nullable bodies at top level, inside an inline subroutine, inside a stored pattern, inside a subroutine called from a loop; recursion guarded by each kind of consuming element: literal, not-literal, any, class, negated class, not-in, in) x all %d inputs over {a,b,\\n} up to length %d; plus seeded random deeper programs on inputs <= 8 bytes, a third of them drawing on every construct (regex literals, named loops, whole-*, amount clauses, replace) with now and then one name bound both by a capture and by a named loop (there an over-budget run is skipped, not judged; what counts there: crashes, and the step monitor's no-progress verdict - one instruction executed 20 000 times in a row in the same attempt at the same input offset with unchanged backtrack/call/loop depths). Non-trivial = the program contains an optional loop whose body can match the empty string and the run executed a loop instruction; distinct by (program, input).", budget, depth, len(texts), tlen)
+	r.Rule = fmt.Sprintf("bounded-progress form of termination: every Run must return within %d VM steps (hook H1), a budget fixed at >= 100x the largest step count the enumerated scope needs on the unchanged tree. Scope enumerated completely: all programs of loop-nesting depth <= %d over nullable building blocks (literal, not-literal, any, line/word/file anchors and their negations, the empty group, not-in, whole word/line; loop forms maybe, at least 0, at most 2, between 0 and 2, at least 1, greedy and fewest; every level-1 program also under skip / skip-take / top / take / last clauses, as find and as replace; loops over loops, over (block loop) and over (loop or block); nullable bodies in subroutines called from loops; named loops with nullable bodies at top level, inside an inline subroutine, inside a stored pattern, inside a subroutine called from a loop, and named loops with a minimum of 50 000 / 100 000 over such bodies; recursion guarded by each kind of consuming element: literal, not-literal, any, class, negated class, not-in, in) x all %d inputs over {a,b,\\n} up to length %d; plus seeded random deeper programs on inputs <= 8 bytes, a third of them drawing on every construct (regex literals, named loops, whole-*, amount clauses, replace) with now and then one name bound both by a capture and by a named loop (there an over-budget run is skipped, not judged; what counts there: crashes, and the step monitor's no-progress verdict - one instruction executed 20 000 times in a row in the same attempt at the same input offset with unchanged backtrack/call/loop depths). Non-trivial = the program contains an optional loop whose body can match the empty string and the run executed a loop instruction; distinct by (program, input).", budget, depth, len(texts), tlen)
 	r.Assumptions = []string{
 		"unbounded 'always terminates' is restated as 'returns within the step budget'; max observed steps are in the evidence so the margin is visible",
 		"recursion only behind a consumed byte; no process-code loops",
